@@ -49,6 +49,7 @@ type ExploreStats struct {
 	ProcTime     time.Duration
 	Queries      int
 	CacheHits    int
+	Trivial      int // flips skipped because the literal already occurs in the prefix
 	Sat          int
 	Unsat        int
 	Unknown      int
@@ -411,8 +412,20 @@ func (e *Explorer) expand(res *RunResult, it *workItem, sol *sym.Solver) {
 		}
 	}
 
+	seen := map[uint64]bool{}
+	for i := 0; i < it.bound && i < len(tr); i++ {
+		seen[tr[i].Lit.H] = true
+	}
 	for i := it.bound; i < len(tr); i++ {
 		r := tr[i]
+		if seen[r.Lit.H] {
+			// the same literal already holds on this path: its negation is unsatisfiable
+			e.mu.Lock()
+			e.Stats.Trivial++
+			e.mu.Unlock()
+			continue
+		}
+		seen[r.Lit.H] = true
 		switch r.Kind {
 		case RecAssume:
 			// Only the failing side (last record of an assume-failed run) is flipped.
@@ -518,8 +531,8 @@ func (e *Explorer) query(sol *sym.Solver, vars []*sym.Term, text string, onSat f
 // Summary renders stats.
 func (s *ExploreStats) Summary() string {
 	var sb strings.Builder
-	fmt.Fprintf(&sb, "paths=%d assume-failed=%d cachehits=%d queries=%d (sat %d unsat %d unknown %d err %d) rel=%.1fs print=%.1fs query=%.1fs run=%.1fs proc=%.1fs dropped=%d divergences=%d steps=%d maxtrace=%d solver=%.2fs wall=%.2fs incomplete=%v",
-		s.Paths, s.AssumeFailed, s.CacheHits, s.Queries, s.Sat, s.Unsat, s.Unknown, s.SolverErrors, s.TRel.Seconds(), s.TPrint.Seconds(), s.TQuery.Seconds(), s.RunTime.Seconds(), s.ProcTime.Seconds(), s.Dropped, s.Divergences, s.Steps, s.MaxTrace, s.SolverTime.Seconds(), s.Wall.Seconds(), s.Incomplete)
+	fmt.Fprintf(&sb, "paths=%d assume-failed=%d trivial=%d cachehits=%d queries=%d (sat %d unsat %d unknown %d err %d) rel=%.1fs print=%.1fs query=%.1fs run=%.1fs proc=%.1fs dropped=%d divergences=%d steps=%d maxtrace=%d solver=%.2fs wall=%.2fs incomplete=%v",
+		s.Paths, s.AssumeFailed, s.Trivial, s.CacheHits, s.Queries, s.Sat, s.Unsat, s.Unknown, s.SolverErrors, s.TRel.Seconds(), s.TPrint.Seconds(), s.TQuery.Seconds(), s.RunTime.Seconds(), s.ProcTime.Seconds(), s.Dropped, s.Divergences, s.Steps, s.MaxTrace, s.SolverTime.Seconds(), s.Wall.Seconds(), s.Incomplete)
 	keys := []string{}
 	for k := range s.ByStatus {
 		keys = append(keys, k)
